@@ -34,7 +34,8 @@ FUNCS = [
     ("ubxreader.py", "UBXReader._read_bytes"), ("ubxreader.py", "UBXReader._read_line"), ("ubxreader.py", "UBXReader._do_error"),
     ("ubxreader.py", "UBXReader.__next__"), ("ubxreader.py", "UBXReader.__init__"), ("ubxreader.py", "UBXReader.__iter__"),
     ("socket_wrapper.py", "SocketWrapper._recv"), ("socket_wrapper.py", "SocketWrapper.read"),
-    ("socket_wrapper.py", "SocketWrapper.readline"),
+    ("socket_wrapper.py", "SocketWrapper.readline"), ("socket_wrapper.py", "SocketWrapper.__init__"),
+    ("socket_wrapper.py", "SocketWrapper.buffer"), ("ubxreader.py", "UBXReader.datastream"),
     ("ubxmessage.py", "UBXMessage.config_set"), ("ubxmessage.py", "UBXMessage.config_del"),
     ("ubxmessage.py", "UBXMessage.config_poll"),
     ("ubxmessage.py", "UBXMessage._do_len_checksum"), ("ubxmessage.py", "UBXMessage.serialize"),
